@@ -63,9 +63,10 @@ theorem hrun_core (o : Ords) (s : Script) (σ : List Nat) (h : HCfg) : (hrun o s
   | nil => rfl
   | cons t ts ih => simp [hrun, run, ih, hstep_core]
 
-/-- working inside the critical section (not unwound) -/
+/-- it is this thread's turn: it has read `yielded = its ticket` (and is checking `completed`), or it works inside the
+critical section (not unwound) -/
 def Pc.working : Pc → Bool
-  | .cs .. | .ins .. | .setC .. | .pub .. => true
+  | .ent .. | .cs .. | .ins .. | .setC .. | .pub .. => true
   | _ => false
 
 /-- the protocol is dead: the ticket `yielded` points at was given up, nobody will ever enter again -/
@@ -77,8 +78,16 @@ structure HInv (h : HCfg) : Prop where
   /-- (J) when nobody is inside, the latest use is published on `yielded` -- or nobody will ever enter again -/
   outside : (∀ t, (h.core.th t).pc.inCS = false) → h.last.le h.relY ∨ DeadT h.core
 
-theorem working_inCS {pc : Pc} (h : pc.working = true) : pc.inCS = true := by
-  cases pc <;> simp_all [Pc.working, Pc.inCS]
+/-- whoever has its turn holds the ticket `yielded` points at -/
+theorem working_ticket {s : Script} {c : Cfg} (hi : Inv s c) (t : Nat) (h : (c.th t).pc.working = true) :
+    ∃ n, (c.th t).pc.ticket = some (c.Y, n) := by
+  generalize hpc : (c.th t).pc = pc at h
+  cases pc <;> simp [Pc.working] at h
+  · rename_i r b; exact ⟨r.len, by rw [hi.entY t r b hpc]; simp [Pc.ticket]⟩
+  all_goals
+    rename_i r b acc
+    have hb := hi.csY t b r.len (by simp [hpc, Pc.inCS]) (by simp [hpc, Pc.ticket])
+    exact ⟨r.len, by rw [hb]; simp [Pc.ticket]⟩
 
 theorem step_th_other (s : Script) (t u : Nat) (c : Cfg) (hu : u ≠ t) : (step s t c).th u = c.th u := by
   unfold step
@@ -92,9 +101,6 @@ theorem step_Y_other (s : Script) (t : Nat) (c : Cfg) (h : ∀ r b acc, (c.th t)
   | pub r b acc => exact absurd rfl (h r b acc)
   | _ => simp only <;> (try (repeat' (first | split | simp [setTh])))
 
-end Orx.IW
-
-namespace Orx.IW
 
 theorem setClk_same (h : HCfg) (t : Nat) (k : VC) : setClk h t k t = k := by simp [setClk]
 theorem setClk_other (h : HCfg) (t u : Nat) (k : VC) (hu : u ≠ t) : setClk h t k u = h.clk u := by simp [setClk, hu]
@@ -102,7 +108,6 @@ theorem setClk_other (h : HCfg) (t u : Nat) (k : VC) (hu : u ≠ t) : setClk h t
 /-- Establishing `HInv` after a step of `t`, from facts about `t`'s new state (the other threads did not move). -/
 theorem hinv_update {h : HCfg} (hv : HInv h) (t : Nat) (core' : Cfg) (k' : VC) (rel' last' : VC)
     (hoth : ∀ u, u ≠ t → core'.th u = h.core.th u)
-    -- other workers keep seeing the latest use: it did not change, or only `t` works
     (hlast : ∀ u, u ≠ t → (h.core.th u).pc.working = true → last' = h.last)
     (hself : (core'.th t).pc.working = true → last'.le k')
     (hout : (∀ u, (core'.th u).pc.inCS = false) → last'.le rel' ∨ DeadT core') :
@@ -117,14 +122,29 @@ theorem hinv_update {h : HCfg} (hv : HInv h) (t : Nat) (core' : Cfg) (k' : VC) (
       exact hv.inside u hw
   · exact hout
 
+/-- two threads never have their turn at the same time -/
 theorem working_not_two {s : Script} {c : Cfg} (hi : Inv s c) (t u : Nat) (htu : u ≠ t)
-    (ht : (c.th t).pc.inCS = true) : (c.th u).pc.working = false := by
+    (ht : (c.th t).pc.working = true) : (c.th u).pc.working = false := by
   cases hw : (c.th u).pc.working with
   | false => rfl
-  | true => exact absurd (working_inCS hw) (by
-      intro hcs; exact mutex hi t u (Ne.symm htu) ht hcs)
+  | true =>
+    obtain ⟨n, h1⟩ := working_ticket hi t ht
+    obtain ⟨n', h2⟩ := working_ticket hi u hw
+    have h3 := hi.tk t _ _ h1
+    have h4 := hi.tk u _ _ h2
+    have h5 := hi.disj t u _ _ _ _ (Ne.symm htu) h1 h2
+    omega
 
-/-- outside the critical section nobody works after a step of a thread that was not about to enter -/
+theorem inCS_of_working_not_ent {pc : Pc} (h : pc.working = true) (he : ∀ r b, pc ≠ .ent r b) : pc.inCS = true := by
+  cases pc <;> simp_all [Pc.working, Pc.inCS]
+
+/-- if somebody has its turn, nobody else is inside the critical section -/
+theorem working_others_outside {s : Script} {c : Cfg} (hi : Inv s c) (t : Nat) (ht : (c.th t).pc.working = true) :
+    ∀ u, u ≠ t → (c.th u).pc.inCS = false := by
+  obtain ⟨n, h1⟩ := working_ticket hi t ht
+  exact others_not_inCS hi t c.Y n h1 rfl
+
+/-- outside the critical section nobody works after a step of a thread that was not about to get its turn -/
 theorem step_not_working (s : Script) (t : Nat) (c : Cfg)
     (h : match (c.th t).pc with | .idle | .skp | .resv _ | .pre _ _ | .chk _ _ | .unw _ _ | .dead _ _ => True | _ => False) :
     ((step s t c).th t).pc.working = false := by
@@ -187,9 +207,13 @@ theorem deadT_step {s : Script} {c : Cfg} (hi : Inv s c) (hd : DeadT c) (hall : 
       simp only at hb'; split at hb'
       · simp [setTh, hretk] at hb'
       · simp [setTh, Pc.ticket] at hb'; obtain ⟨rfl, _⟩ := hb'; exact hold b r.len (by simp [Pc.ticket])
+    · rename_i r b
+      have hb0 := hold b r.len (by simp [Pc.ticket])
+      have := hi.entY u r b (by simp [hx])
+      omega
   · rw [step_th_other s t u c hu] at hb'; exact hd.2 u b' n' hb'
 
-/-- steps of a thread that is outside the critical section and not about to enter it -/
+/-- steps of a thread that is outside the critical section and not about to get its turn -/
 theorem hinv_quiet {s : Script} {h : HCfg} (hi : Inv s h.core) (hv : HInv h) (t : Nat)
     (hq : match (h.core.th t).pc with | .idle | .skp | .resv _ | .pre _ _ | .chk _ _ | .unw _ _ | .dead _ _ => True | _ => False) :
     HInv { h with core := step s t h.core, clk := setClk h t ((h.clk t).tick t) } := by
@@ -222,62 +246,12 @@ theorem hinv_quiet {s : Script} {h : HCfg} (hi : Inv s h.core) (hv : HInv h) (t 
 
 /-- **(K)/(J) are preserved by every step**, provided the load of `yielded` acquires and its `fetch_add` releases. -/
 theorem hstep_inv (o : Ords) (hacq : o.yLoad.isAcq = true) (hrel : o.yFaa.isRel = true)
-    {s : Script} (hf : Fused s) {h : HCfg} (hi : Inv s h.core) (hW : h.core.R < W) (hv : HInv h) (t : Nat) :
+    {s : Script} {h : HCfg} (hi : Inv s h.core) (hW : h.core.R < W) (hv : HInv h) (t : Nat) :
     HInv (hstep o s t h) := by
-  have hi' := step_inv hf hi hW t
   have hoth := fun u (hu : u ≠ t) => step_th_other s t u h.core hu
   unfold hstep
   generalize hpc : (h.core.th t).pc = pc
-  -- the new state of `t`, by cases, read off `step`
   cases pc with
-  | wait r b =>
-    simp only [hacq, ↓reduceIte]
-    have hme : (h.core.th t).pc.ticket = some (b, r.len) := by simp [hpc, Pc.ticket]
-    have htk := hi.tk t b r.len hme
-    refine hinv_update hv t _ _ _ _ hoth (fun _ _ _ => rfl) ?_ ?_
-    · -- if `t` now works, it entered: b = Y, nobody was inside, so (J) applies and the acquire load joins relY
-      intro hw
-      have hbY : b = h.core.Y := by
-        unfold step at hw; simp only [hpc] at hw
-        by_cases hb : b = h.core.Y
-        · exact hb
-        · simp only [hb, ↓reduceIte] at hw
-          split at hw <;> simp [setTh, ret_inCS, Pc.working] at hw
-          · rcases ret_pc (h.core.th t) r .fin with h1 | h1 <;> simp [h1, Pc.working] at hw
-      have hno := others_not_inCS hi t b r.len hme hbY
-      have hall : ∀ u, (h.core.th u).pc.inCS = false := by
-        intro u
-        by_cases hu : u = t
-        · subst hu; simp [hpc, Pc.inCS]
-        · exact hno u hu
-      rcases hv.outside hall with hle | hdead
-      · exact VC.le_trans hle (VC.le_join_right _ _)
-      · have := hdead.2 t b r.len hme; omega
-    · intro hall
-      -- nobody inside afterwards: nobody was inside before either (t was not), and Y, R-order facts persist
-      have hall0 : ∀ u, (h.core.th u).pc.inCS = false := by
-        intro u
-        by_cases hu : u = t
-        · subst hu; simp [hpc, Pc.inCS]
-        · rw [← hoth u hu]; exact hall u
-      have hY : (step s t h.core).Y = h.core.Y := step_Y_other s t h.core (by simp [hpc])
-      rcases hv.outside hall0 with hle | hdead
-      · exact Or.inl hle
-      · refine Or.inr ⟨by rw [hY]; exact Nat.lt_of_lt_of_le hdead.1 (step_R_mono s t h.core), ?_⟩
-        intro u b' n' hb'
-        rw [hY]
-        by_cases hu : u = t
-        · subst hu
-          -- t's ticket after the step is still (b, r.len) or none
-          have : (step s u h.core).th u = (step s u h.core).th u := rfl
-          unfold step at hb'; simp only [hpc] at hb'
-          split at hb'
-          · split at hb' <;> simp [setTh, Pc.ticket] at hb' <;> (obtain ⟨rfl, _⟩ := hb'; exact hdead.2 u b r.len hme)
-          · split at hb'
-            · simp [setTh] at hb'
-              rcases ret_pc (h.core.th u) r .fin with h1 | h1 <;> simp [h1, Pc.ticket] at hb'
-            · simp [setTh, Pc.ticket] at hb'; obtain ⟨rfl, _⟩ := hb'; exact hdead.2 u b r.len hme
-        · rw [hoth u hu] at hb'; exact hdead.2 u b' n' hb'
   | idle => exact hinv_quiet hi hv t (by simp [hpc])
   | skp => exact hinv_quiet hi hv t (by simp [hpc])
   | resv r => exact hinv_quiet hi hv t (by simp [hpc])
@@ -285,24 +259,78 @@ theorem hstep_inv (o : Ords) (hacq : o.yLoad.isAcq = true) (hrel : o.yFaa.isRel 
   | chk r b => exact hinv_quiet hi hv t (by simp [hpc])
   | unw b n => exact hinv_quiet hi hv t (by simp [hpc])
   | dead b n => exact hinv_quiet hi hv t (by simp [hpc])
+  | wait r b =>
+    simp only [hacq, ↓reduceIte]
+    have hme : (h.core.th t).pc.ticket = some (b, r.len) := by simp [hpc, Pc.ticket]
+    have htk := hi.tk t b r.len hme
+    -- what the step does to `t`
+    have hnew : ((step s t h.core).th t).pc = (if b = h.core.Y then .ent r b else if b < h.core.Y then (ret (h.core.th t) r .fin).pc else .chk r b) := by
+      unfold step; simp only [hpc]
+      split
+      · simp [setTh]
+      · split <;> simp [setTh]
+    have hY : (step s t h.core).Y = h.core.Y := step_Y_other s t h.core (by simp [hpc])
+    refine hinv_update hv t _ _ _ _ hoth (fun _ _ _ => rfl) ?_ ?_
+    · intro hw
+      rw [hnew] at hw
+      by_cases hbY : b = h.core.Y
+      · -- it is t's turn: nobody is inside, (J) applies, the acquire load joins what was published
+        have hno := others_not_inCS hi t b r.len hme hbY
+        have hall : ∀ u, (h.core.th u).pc.inCS = false := by
+          intro u
+          by_cases hu : u = t
+          · subst hu; simp [hpc, Pc.inCS]
+          · exact hno u hu
+        rcases hv.outside hall with hle | hdead
+        · exact VC.le_trans hle (VC.le_join_right _ _)
+        · have := hdead.2 t b r.len hme; omega
+      · simp only [hbY, ↓reduceIte] at hw
+        split at hw
+        · rcases ret_pc (h.core.th t) r .fin with h1 | h1 <;> simp [h1, Pc.working] at hw
+        · simp [Pc.working] at hw
+    · intro hall
+      have hall0 : ∀ u, (h.core.th u).pc.inCS = false := by
+        intro u
+        by_cases hu : u = t
+        · subst hu; simp [hpc, Pc.inCS]
+        · rw [← hoth u hu]; exact hall u
+      rcases hv.outside hall0 with hle | hdead
+      · exact Or.inl hle
+      · exact Or.inr (deadT_step hi hdead hall0 t)
+  | ent r b =>
+    simp only
+    have hw0 : (h.core.th t).pc.working = true := by simp [hpc, Pc.working]
+    have hme : (h.core.th t).pc.ticket = some (b, r.len) := by simp [hpc, Pc.ticket]
+    have hbY := hi.entY t r b hpc
+    have hK := hv.inside t hw0
+    have hno := others_not_inCS hi t b r.len hme hbY
+    have hall0 : ∀ u, (h.core.th u).pc.inCS = false := by
+      intro u
+      by_cases hu : u = t
+      · subst hu; simp [hpc, Pc.inCS]
+      · exact hno u hu
+    refine hinv_update hv t _ _ _ _ hoth (fun _ _ _ => rfl) (fun _ => VC.le_trans hK (VC.le_tick _ _)) ?_
+    intro _
+    rcases hv.outside hall0 with hle | hdead
+    · exact Or.inl hle
+    · have := hdead.2 t b r.len hme; omega
   | cs r b acc =>
     simp only
-    have hcs : (h.core.th t).pc.inCS = true := by simp [hpc, Pc.inCS]
+    have hw0 : (h.core.th t).pc.working = true := by simp [hpc, Pc.working]
     have hnew : ((step s t h.core).th t).pc = .ins r b acc := by unfold step; simp [hpc, setTh]
     refine hinv_update hv t _ _ _ _ hoth ?_ (fun _ => VC.le_refl _) ?_
-    · intro u hu hw; rw [working_not_two hi t u hu hcs] at hw; exact absurd hw (by simp)
+    · intro u hu hw; rw [working_not_two hi t u hu hw0] at hw; exact absurd hw (by simp)
     · intro hall; have := hall t; simp [hnew, Pc.inCS] at this
   | ins r b acc =>
     simp only
-    have hcs : (h.core.th t).pc.inCS = true := by simp [hpc, Pc.inCS]
+    have hw0 : (h.core.th t).pc.working = true := by simp [hpc, Pc.working]
     have hnew : ((step s t h.core).th t).pc.inCS = true := by
-      have hme : ((step s t h.core).th t).pc.ticket = some (b, r.len) ∨ True := Or.inr trivial
       unfold step; simp only [hpc]
       cases s h.core.P <;> simp only <;> repeat' (first | split | simp [setTh, Pc.inCS])
     refine hinv_update hv t _ _ _ _ hoth ?_ (fun _ => VC.le_refl _) ?_
-    · intro u hu hw; rw [working_not_two hi t u hu hcs] at hw; exact absurd hw (by simp)
+    · intro u hu hw; rw [working_not_two hi t u hu hw0] at hw; exact absurd hw (by simp)
     · intro hall; have := hall t; simp [hnew] at this
-  | setC r b =>
+  | setC r b acc =>
     simp only
     have hme : (h.core.th t).pc.ticket = some (b, r.len) := by simp [hpc, Pc.ticket]
     have hcs : (h.core.th t).pc.inCS = true := by simp [hpc, Pc.inCS]
@@ -310,14 +338,13 @@ theorem hstep_inv (o : Ords) (hacq : o.yLoad.isAcq = true) (hrel : o.yFaa.isRel 
     have htk := hi.tk t b r.len hme
     have hbY := hi.csY t b r.len hcs hme
     have hK := hv.inside t hw0
+    have hY : (step s t h.core).Y = h.core.Y := step_Y_other s t h.core (by simp [hpc])
     refine hinv_update hv t _ _ _ _ hoth (fun _ _ _ => rfl) (fun _ => VC.le_trans hK (VC.le_tick _ _)) ?_
     intro hall
     -- t left the critical section without publishing: the protocol is dead
     refine Or.inr ⟨?_, ?_⟩
-    · have hY : (step s t h.core).Y = h.core.Y := step_Y_other s t h.core (by simp [hpc])
-      rw [hY]; exact Nat.lt_of_lt_of_le (by omega) (step_R_mono s t h.core)
+    · rw [hY]; exact Nat.lt_of_lt_of_le (by omega) (step_R_mono s t h.core)
     · intro u b' n' hb'
-      have hY : (step s t h.core).Y = h.core.Y := step_Y_other s t h.core (by simp [hpc])
       rw [hY]
       by_cases hu : u = t
       · subst hu
@@ -335,7 +362,6 @@ theorem hstep_inv (o : Ords) (hacq : o.yLoad.isAcq = true) (hrel : o.yFaa.isRel 
         omega
   | pub r b acc =>
     simp only [hrel, ↓reduceIte]
-    have hme : (h.core.th t).pc.ticket = some (b, r.len) := by simp [hpc, Pc.ticket]
     have hw0 : (h.core.th t).pc.working = true := by simp [hpc, Pc.working]
     have hK := hv.inside t hw0
     have hnw : ((step s t h.core).th t).pc.working = false := by
@@ -349,15 +375,10 @@ theorem hstep_inv (o : Ords) (hacq : o.yLoad.isAcq = true) (hrel : o.yFaa.isRel 
     refine hinv_update hv t _ _ _ _ hoth (fun _ _ _ => rfl) (fun hw => by rw [hnw] at hw; exact absurd hw (by simp)) ?_
     intro _
     refine Or.inl ?_
-    -- last ≤ clk t ≤ tick ≤ k' ≤ k' ⊔ relY
     refine VC.le_trans hK (VC.le_trans (VC.le_tick _ t) ?_)
     split
     · exact VC.le_trans (VC.le_join_left _ h.relY) (VC.le_join_left _ _)
     · exact VC.le_join_left _ _
-
-end Orx.IW
-
-namespace Orx.IW
 
 def hinit (ps : Nat → List Req) : HCfg := { core := init ps }
 
@@ -367,7 +388,7 @@ theorem hinv_init (ps : Nat → List Req) : HInv (hinit ps) := by
   · intro _; exact Or.inl (fun _ => Nat.le_refl _)
 
 theorem hinv_run (o : Ords) (hacq : o.yLoad.isAcq = true) (hrel : o.yFaa.isRel = true)
-    {s : Script} (hf : Fused s) (σ : List Nat) {h : HCfg} (hi : Inv s h.core) (hv : HInv h)
+    {s : Script} (σ : List Nat) {h : HCfg} (hi : Inv s h.core) (hv : HInv h)
     (hW : (run s σ h.core).R < W) : HInv (hrun o s σ h) ∧ Inv s (hrun o s σ h).core := by
   induction σ generalizing h with
   | nil => exact ⟨hv, hi⟩
@@ -375,20 +396,20 @@ theorem hinv_run (o : Ords) (hacq : o.yLoad.isAcq = true) (hrel : o.yFaa.isRel =
     simp only [hrun, run] at hW ⊢
     have h1 : (step s t h.core).R < W := Nat.lt_of_le_of_lt (run_R_mono s ts _) hW
     have h0 : h.core.R < W := Nat.lt_of_le_of_lt (step_R_mono s t h.core) h1
-    have hv' := hstep_inv o hacq hrel hf hi h0 hv t
-    have hi' : Inv s (hstep o s t h).core := by rw [hstep_core]; exact step_inv hf hi h0 t
+    have hv' := hstep_inv o hacq hrel hi h0 hv t
+    have hi' : Inv s (hstep o s t h).core := by rw [hstep_core]; exact step_inv hi h0 t
     exact ih hi' hv' (by rw [hstep_core]; exact hW)
 
 /-- **No data race on the wrapped iterator.** With an acquiring load and a releasing `fetch_add` on `yielded`:
-in every reachable configuration (all fused scripts incl. panicking ones, all programs with skips, all
-schedules), whenever a thread is about to enter or to leave the wrapped iterator's `next()`, the previous use of
-the iterator — by whichever thread — happens-before it (its vector clock is below the thread's clock). -/
+in every reachable configuration (all wrapped iterators -- fused or not, panicking or not --, all programs with
+skips, all schedules), whenever a thread is about to enter or to leave the wrapped iterator's `next()`, the
+previous use of the iterator — by whichever thread — happens-before it (its vector clock is below the thread's). -/
 theorem no_race (o : Ords) (hacq : o.yLoad.isAcq = true) (hrel : o.yFaa.isRel = true)
-    (s : Script) (hf : Fused s) (ps : Nat → List Req) (hok : ∀ t, ∀ r ∈ ps t, ReqOk r) (σ : List Nat)
+    (s : Script) (ps : Nat → List Req) (hok : ∀ t, ∀ r ∈ ps t, ReqOk r) (σ : List Nat)
     (hW : (run s σ (init ps)).R < W) (t : Nat)
     (huse : ∃ r b acc, ((hrun o s σ (hinit ps)).core.th t).pc = .cs r b acc ∨ ((hrun o s σ (hinit ps)).core.th t).pc = .ins r b acc) :
     (hrun o s σ (hinit ps)).last.le ((hrun o s σ (hinit ps)).clk t) := by
-  have h := (hinv_run o hacq hrel hf σ (h := hinit ps) (inv_init s ps hok) (hinv_init ps) hW).1
+  have h := (hinv_run o hacq hrel σ (h := hinit ps) (inv_init s ps hok) (hinv_init ps) hW).1
   apply h.inside t
   obtain ⟨r, b, acc, hpc | hpc⟩ := huse <;> simp [hpc, Pc.working]
 
